@@ -618,7 +618,7 @@ def _ctor_c12(prop, tier):
     keep = []
     for f in r["findings"]:
         if any(f.key.split(":", 1)[1].startswith(k) for k in _C12_KEYS):
-            f.native_kind = "c11"
+            f.native_kind = "c12"
             keep.append(f)
     r["findings"] = keep
     r["obligations"] = [o for o in r["obligations"] if any(o[1].startswith(k) for k in _C12_KEYS)]
@@ -657,13 +657,13 @@ REGISTRY["C17"] = {
                    "tries JSON, then Gambit, then diverges; `main` opens / writes its output only after the reader returned and the solver returned Ok for the game that was read. "
                    "The MIR is dumped from /repo's current tree on every run.",
     "assumptions": ["rustc's MIR dump is the program that is compiled", "Result::expect / unwrap / panic! diverge and a panicking process exits with a non-zero status and prints the message on stderr (std)",
-                    "WHICH byte strings the parsers reject, and the validation loops of gambit::get_global_info (constant sum, non-finite payoffs, infoset name clashes), are NOT covered",
+                    "WHICH byte strings the parsers reject is NOT covered; of gambit::get_global_info only the tail and the terminal arm of the payoff loop are (constant-sum decision against the README's 0.1 % rule and the finite-payoff test, decided by z3 for every f64), not the accumulation of outcome payoffs nor the infoset-name pass",
                     "which trees Game::from_root rejects is C11's subject"],
     "parts": [_glue],
 }
 MANIFEST_TEXT["C17"] = {
     "engine": "mirsmt",
-    "technique": "MIR-to-SMT style path analysis of the CLI's reader glue and of main's call order (structural obligations on every path; no arithmetic is involved)",
-    "text": "Partial: for every path through the CLI's reader functions a game is handed to the solver only if the selected parser succeeded and Game::from_root accepted the tree (and a Gambit file has exactly two players); all other paths end the process through expect / panic! with the documented diagnostic, and main prints a result object only after reader and solver returned. Which inputs the third-party parsers and the Gambit validation loops reject is not claimed.",
-    "note": "Level 'other'. Thin by design: the part of this property that lives in serde_json / gambit-parser / get_global_info cannot be encoded. A finding is confirmed natively by running the built binary on 65 corrupted JSON / Gambit inputs under every input route (exit status, empty stdout, documented diagnostic on stderr) plus three valid controls.",
+    "technique": "MIR-to-SMT style path analysis of the CLI's reader glue and of main's call order (structural obligations on every path; z3 floating-point queries for the constant-sum decision)",
+    "text": "Partial: for every path through the CLI's reader functions a game is handed to the solver only if the selected parser succeeded and Game::from_root accepted the tree (and a Gambit file has exactly two players); all other paths end the process through expect / panic! with the documented diagnostic, and main prints a result object only after reader and solver returned. For Gambit files z3 shows (every f64) that the accept / reject decision after the payoff loop is the README's rule (range of payoff sums x 1000 > range of player one's payoffs => #constant-sum) and that a non-finite payoff sum is rejected. Which inputs the third-party parsers reject is not claimed.",
+    "note": "Level 'other'. Thin by design: the part of this property that lives in serde_json / gambit-parser / get_global_info cannot be encoded. A finding is confirmed natively by running the built binary on 71 corrupted JSON / Gambit inputs under every input route (exit status, empty stdout, documented diagnostic on stderr) plus three valid controls.",
 }
